@@ -70,8 +70,13 @@ class FakeSocket:
     def fileno(self):
         return 3000 + self.n
 
+    def _live(self):
+        # a closed descriptor: every further operation fails with EBADF, as on a real socket
+        if getattr(self.env, 'closed', False):
+            raise OSError(errno.EBADF, 'Bad file descriptor (socket already closed)')
+
     def setblocking(self, b):
-        pass
+        self._live()
 
     def getpeername(self):
         return (self.name, 1234)
@@ -80,10 +85,12 @@ class FakeSocket:
         return ('127.0.0.1', 12300)
 
     def getsockopt(self, level, opt):
+        self._live()
         c = self.io.conn
         return int(c[1:].split(':')[1]) if c != 'ok' else 0
 
     def connect(self, addr):
+        self._live()
         c = self.io.conn
         if c == 'ok':
             return
@@ -91,6 +98,7 @@ class FakeSocket:
         raise OSError(e, 'scripted connect errno %d' % e)
 
     def recv(self, n):
+        self._live()
         r = self.io.recv
         if r == 'x':
             raise ConnectionResetError(errno.ECONNRESET, 'scripted reset')
@@ -108,6 +116,7 @@ class FakeSocket:
         return out
 
     def send(self, b):
+        self._live()
         r = self.io.send
         if self.env.saw_shut and r != 'x':
             r = 'p'
@@ -123,6 +132,7 @@ class FakeSocket:
         return k
 
     def shutdown(self, how):
+        self._live()
         self.env.saw_shut = True
         self.log.append(('shutdown',))
         if self.io.shut_err:
@@ -485,8 +495,7 @@ class RealTunnel:
                 ok = (sw.connect_to is None and not b''.join(sw.buf) and not b''.join(mw.buf) and
                       (sw.shut_read or (not env.pending and not env.eof_in)) and
                       (not sw.shut_read or mw.shut_write) and (not mw.shut_read or sw.shut_write) and
-                      (not sw.shut_write or mw.shut_read) and (not mw.shut_write or sw.shut_read) and
-                      (not (sw.shut_read and mw.shut_read) or not p.ok))
+                      (not sw.shut_write or mw.shut_read) and (not mw.shut_write or sw.shut_read))
                 if not ok:
                     return False
         return True
